@@ -76,7 +76,7 @@ def _propagate_nan_values(
         objective_results = objective_results.copy()
         objective_results[failures, :] = np.nan
     if constraint_results is not None:
-        constraint_failures = constraint_failures.copy()
+        constraint_results = constraint_results.copy()
         constraint_results[failures, :] = np.nan
     return objective_results, constraint_results
 
